@@ -12,7 +12,10 @@ MARGIN = Fraction(1, 10 ** 9)
 
 
 def fr(x: Fraction) -> str:
-    return f"{x.numerator}/{x.denominator}"
+    d = x.denominator
+    if d > (1 << 1000) and d & (d - 1) == 0:
+        return f"{x.numerator}/2^{d.bit_length() - 1}"     # past the range of f64: subnormal values
+    return f"{x.numerator}/{d}"
 
 
 def dy(k, bits=20):
@@ -72,6 +75,11 @@ def gen_cases(r: Run):
         ("droplast", base, []), ("droplast", base[:1], []), ("incr", base, [Fraction(1, 2)]),
         ("incr", base[:1], [Fraction(0)]), ("slice", base, [Fraction(1), Fraction(3)]),
     ]
+    # D30 (known finding): peaks to keep whose raw total is a subnormal double
+    tiny = Fraction(1, 2 ** 1051)
+    corpus += [("normalize", [(Fraction(100), tiny)], []), ("trunc", [(Fraction(100), tiny), (Fraction(101), tiny)], [Fraction(0)]),
+               ("droplast", [(Fraction(100), tiny), (Fraction(101), Fraction(1))], []),
+               ("slice", [(Fraction(100), Fraction(1, 2)), (Fraction(101), tiny), (Fraction(102), Fraction(1, 2))], [Fraction(1), Fraction(2)])]
     for op, l, a in corpus:
         cases.append(dict(op=op, origin=l[0][0], peaks=l, args=a, exact=True, kind="corpus"))
     cases.append(dict(op="eq", a=base, b=base[:2], oa=Fraction(0), ob=Fraction(0), kind="corpus"))
@@ -96,7 +104,24 @@ def gen_cases(r: Run):
             # "every non-empty pattern with positive total intensity" — powers of two keep every value exact
             k = Fraction(1, 2 ** 70) if li % 10 == 7 else Fraction(2 ** 120)
             l = [(m, i * k) for m, i in l]
-        scaled = li % 10 in (7, 9) or bool(sp and sp[0] == "mag")
+        inexact = False
+        if li % 10 in (3, 5) and sp is None:
+            # magnitudes drawn per peak: a dominant last / first peak, a subnormal tail, or fully independent exponents
+            # ("all peak lists with positive intensities"); f64 partial sums of such lists are not exact
+            mode = ("lastdom", "firstdom", "subtail", "indep", "subhead")[(li // 10) % 5]
+            if mode == "lastdom":
+                es = [rng.choice([-60, -52, -45])] * (n - 1) + [0]
+            elif mode == "firstdom":
+                es = [0] + [rng.choice([-60, -52, -45])] * (n - 1)
+            elif mode == "subtail":
+                es = [0] * max(1, n - 2) + [-1045, -1050][: n - max(1, n - 2)]
+            elif mode == "subhead":
+                es = [-1048] + [0] * (n - 1)
+            else:
+                es = [rng.choice([-1040, -300, -60, -40, -20, 0, 20, 60]) for _ in range(n)]
+            l = [(m, i * (Fraction(2) ** e)) for (m, i), e in zip(l, es)]
+            inexact = True
+        scaled = li % 10 in (7, 9) or bool(sp and sp[0] == "mag") or inexact
         # the origin is a field of its own: only sometimes the first peak's m/z
         origin = l[0][0] if li % 3 == 0 else Fraction(rng.randint(50 * 64, 3000 * 64), 64)
         is_norm = sum(i for _, i in l) == 1
@@ -117,11 +142,14 @@ def gen_cases(r: Run):
             fc = float(cj)
             if Fraction(fc) == cj and 0 < fc < 1e300:
                 ths = ths + [Fraction(math.nextafter(fc, math.inf)), Fraction(math.nextafter(fc, 0.0))]
+        if inexact:
+            ths = [Fraction(float(t)) for t in ths]       # thresholds the caller can actually pass
         for t in ths:
-            add("trunc", [t])
+            add("trunc", [t], exact=not inexact)
             # on a list that sums to exactly 1 normalisation is the identity in f64 as well, so a threshold
             # sitting exactly on a cumulative sum is decided exactly on both sides
-            add("incr", [t / max(Fraction(1), sum(i for _, i in l))], exact=is_norm)
+            ti = t / max(Fraction(1), sum(i for _, i in l))
+            add("incr", [Fraction(float(ti)) if inexact else ti], exact=is_norm and not inexact)
         its = sorted(set(i for _, i in l))
         igs = [Fraction(0), its[0], its[-1], its[-1] * Fraction(1025, 1024), its[len(its) // 2],
                (its[0] + its[-1]) / 2, Fraction(-1)]
@@ -133,13 +161,16 @@ def gen_cases(r: Run):
             if Fraction(fb) == base and 0 < fb < 1e300:
                 igs += [Fraction(math.nextafter(fb, math.inf)), Fraction(math.nextafter(fb, 0.0)),
                         Fraction(math.nextafter(math.nextafter(fb, math.inf), math.inf))]
+        if inexact:
+            igs = [Fraction(float(t)) for t in igs]
         for t in igs:
             add("ignore", [t])
         for _ in range(6 if thorough else 3):
             t1 = Fraction(rng.randint(0, 1229), 1024)          # [0, 1.2]
             t2 = Fraction(rng.randint(0, 1229), 1024) if rng.random() < 0.4 else Fraction(rng.randint(0, 300), 1024)
             tot = sum(i for _, i in l)
-            add("fused", [t1 * tot if rng.random() < 0.5 else t1, t2, Fraction(rng.randint(-64000, 64000), 64)], exact=False)
+            ta = t1 * tot if rng.random() < 0.5 else t1
+            add("fused", [Fraction(float(ta)) if inexact else ta, t2, Fraction(rng.randint(-64000, 64000), 64)], exact=False)
         if is_norm:
             # ties that are exact in f64 too: the list sums to exactly 1 and the first threshold keeps everything, so
             # the retained total is 1 and "intensity >= t2" is decided on identical numbers by the fused and the
@@ -245,8 +276,38 @@ def same_out(a, b):
     return same_pattern(a, b)
 
 
+SUBNORMAL = Fraction(1, 2 ** 1022)
+
+
+def retained_min(c, spec):
+    """the smallest raw total over the peak sets the operation is specified to keep (each of them is renormalised by the
+    real code as `scale_by(1.0 / total)`), found by mapping the specified m/z back to the input list"""
+    if c["op"] not in ("normalize", "trunc", "ignore", "fused", "droplast", "slice", "incr"):
+        return None
+    shift = c["args"][2] if c["op"] == "fused" else Fraction(0)
+    raw = {m + shift: i for m, i in c["peaks"]}
+    pats = spec[1] if isinstance(spec, tuple) and spec and spec[0] == "list" else [spec]
+    tots = []
+    for p in pats:
+        if isinstance(p, tuple) and p[1] and all(x[0] in raw for x in p[1]):
+            tots.append(sum(raw[x[0]] for x in p[1]))
+    if c["op"] == "incr":
+        tots.append(sum(i for _, i in c["peaks"]))      # the iterator normalises the whole pattern first
+    return min(tots) if tots else None
+
+
 def compare(c, impl_line, drv_line):
-    """returns (status, detail): status in ok | skipped | impl_vs_spec | corr | broken"""
+    """returns (status, detail): status in ok | skipped | impl_vs_spec | corr | broken | d30"""
+    st, detail = compare_(c, impl_line, drv_line)
+    if st in ("impl_vs_spec", "corr"):
+        parts = drv_line.split("\t")
+        rm = retained_min(c, parse_out(parts[1])) if len(parts) == 3 and c["op"] != "eq" and parts[1] != "unspecified" else None
+        if rm is not None and 0 < rm < SUBNORMAL:
+            return "d30", detail
+    return st, detail
+
+
+def compare_(c, impl_line, drv_line):
     parts = drv_line.split("\t")
     if len(parts) != 3:
         return "broken", f"driver said {drv_line[:100]}"
@@ -319,6 +380,11 @@ def run_all(r: Run, prop):
             continue
         if status == "broken":
             raise Broken(f"{c['op']}: {detail}")
+        if status == "d30":
+            # D30 (known finding): the peaks to keep have a raw total below 2^-1022, `1.0 / total` overflows
+            r.violation("subnormal-total", {"retained_total": "below 2^-1022", "renormalisation": "scale_by(1.0 / total)"},
+                        f"{c['op']}: {detail}", observed={"line": case_line(c), "impl": il[:200]})
+            continue
         corr_ok = False
         key = (c["op"], status)
         if key in seen:
